@@ -49,7 +49,7 @@ func (b *c47Blocks) BlockHeightWaiter(h uint64) (<-chan uint64, error) {
 	}
 	return ch, nil
 }
-func (b *c47Blocks) CurrentBlock() (uint64, error) { return b.height, nil }
+func (b *c47Blocks) CurrentBlock() (uint64, error)             { return b.height, nil }
 func (b *c47Blocks) WatchBlocks(context.Context) <-chan uint64 { panic("c47: unused") }
 func (b *c47Blocks) mine() {
 	b.height++
@@ -171,7 +171,7 @@ type c47LoopCase struct {
 	N        int    `json:"n"`
 	Member   int    `json:"member"`
 	Entry    string `json:"entry"`
-	Event    string `json:"event"` // "none" | "submitted" | "timeout-only"
+	Event    string `json:"event"`     // "none" | "submitted" | "timeout-only"
 	EventRel int    `json:"event_rel"` // block of the competing submission relative to the slot
 	Submit   string `json:"submit"`    // chain answer to SubmitRelayEntry: ok | err-done | err-inprogress | err-status
 }
